@@ -156,9 +156,13 @@ func cmdWorker(args []string) int {
 	id := args[0]
 	fs.Parse(args[1:])
 	c := getCheck(id)
-	runtime.GOMAXPROCS(c.Procs() + 1) // +1 so that the watchdog goroutine can always run
+	// GOMAXPROCS varies with the worker slot (it must not matter to any result: the determinism
+	// self-test compares traces at 1, 4 and 16); checks that measure the allocator are pinned to 1
+	runtime.GOMAXPROCS([]int{2, 3, 5, 16}[*w%4])
 	if c.Procs() == 1 {
 		runtime.GOMAXPROCS(1)
+	} else if c.Procs() >= 16 {
+		runtime.GOMAXPROCS(c.Procs())
 	}
 	knownSet := map[string]bool{}
 	for _, k := range strings.Split(*known, ",") {
